@@ -68,7 +68,12 @@ impl DeliveryState {
 
 impl Drop for DeliveryState {
     fn drop(&mut self) {
-        let lock = self.registered_signal_ids.lock().unwrap();
+        // A panic inside `add_signal` (forbidden or out-of-range signal) poisons the mutex, but
+        // the table is only written after a successful registration, so it is still consistent.
+        let lock = self
+            .registered_signal_ids
+            .lock()
+            .unwrap_or_else(|e| e.into_inner());
         for id in lock.iter().filter_map(|s| *s) {
             crate::low_level::unregister(id);
         }
@@ -197,7 +202,12 @@ impl Handle {
     /// * If the relevant [`Exfiltrator`] does not support this particular signal. The default
     ///   [`SignalOnly`] one supports all signals.
     pub fn add_signal(&self, signal: c_int) -> Result<(), Error> {
-        let mut lock = self.delivery_state.registered_signal_ids.lock().unwrap();
+        // See the note in `DeliveryState::drop` about poisoning.
+        let mut lock = self
+            .delivery_state
+            .registered_signal_ids
+            .lock()
+            .unwrap_or_else(|e| e.into_inner());
         // Already registered, ignoring
         if lock[signal as usize].is_some() {
             return Ok(());
